@@ -38,51 +38,62 @@ type siteSpec struct {
 	x, y  string
 	rest  []string
 	multi bool // y on the next line
+	// pre / post: statements in front of and behind the row of probe calls (a block with local declarations around the row)
+	pre, post string
 }
 
 var siteSpecs = []siteSpec{
-	{"1", "2", nil, false},
-	{"7", "7", []string{"1", "2", "3"}, false},
-	{"K", "gv", []string{"gv"}, false},
-	{"gv", "K", []string{"5", "gv"}, true},
-	{"-3", "1 << 40", []string{"8"}, false},
-	{"1 << 40", "-3", nil, true},
-	{"'a'", "uint8(200)", []string{"'b'", "'c'"}, false},
-	{"uint8(200)", "'a'", nil, false},
-	{"\"abc\"", "\"abd\"", nil, false},
-	{"\"abd\"", "\"abc\"", []string{"\"x\""}, true},
-	{"gs", "\"abc\"", nil, false},
-	{"KS", "gs", nil, false},
-	{"s", "s.a", []string{"s.a", "s.b"}, false},
-	{"s.a", "s", nil, true},
-	{"Big{}", "s", []string{"Big{}", "int64(1)"}, false},
-	{"&s", "Big{}", nil, false},
-	{"t", "u", []string{"t"}, false},
-	{"u", "t", []string{"u", "1"}, true},
-	{"u", "u", nil, false},
-	{"arr", "len(arr)", []string{"arr[0]"}, false},
-	{"arr[0]", "arr", nil, false},
-	{"len(arr)", "cap(arr)", []string{"len(arr)", "3"}, false},
-	{"2.5", "1", []string{"2.5"}, false},
-	{"true", "2.0", nil, false},
-	{"MyInt(8)", "8", []string{"MyInt(8)", "8"}, false},
-	{"int8(1)", "int64(1)", []string{"int8(1)", "int16(1)"}, false},
-	{"int64(1)", "int8(1)", []string{"int64(9)", "int64(10)", "int64(11)"}, true},
-	{"K + 1", "K - 7", []string{"K", "K + 1"}, false},
-	{"(gv)", "(7)", nil, false},
-	{"f0()", "7", []string{"f0()"}, false},
-	{"[2]int32{}", "[3]string{}", []string{"[2]int32{}"}, false},
-	{"struct{}{}", "0", []string{"0", "0"}, false},
-	{"x0", "x0", []string{"x0", "x0"}, false},
-	{"97", "'a'", []string{"97"}, false},
-	{"\"ab\" + \"c\"", "KS", nil, false},
-	{"\"\"", "\"a\"", nil, false},
-	{"uint64(1 << 63)", "int64(-1 << 63)", []string{"uint64(1 << 63)"}, false},
-	{"200", "uint8(200)", []string{"199", "200", "201"}, true},
-	{"[2]T{}", "struct{ v U }{}", []string{"[1]int{}", "[1][1]T{}"}, false},
-	{"struct{ a [2]U }{}", "[2]T{}", nil, false},
-	{"[2]string{\n\t\t\"q\",\n\t}", "gv", nil, false},
-	{"gv", "func() int {\n\t\treturn 1\n\t}()", []string{"1"}, false},
+	{"1", "2", nil, false, "", ""},
+	{"7", "7", []string{"1", "2", "3"}, false, "", ""},
+	{"K", "gv", []string{"gv"}, false, "", ""},
+	{"gv", "K", []string{"5", "gv"}, true, "", ""},
+	{"-3", "1 << 40", []string{"8"}, false, "", ""},
+	{"1 << 40", "-3", nil, true, "", ""},
+	{"'a'", "uint8(200)", []string{"'b'", "'c'"}, false, "", ""},
+	{"uint8(200)", "'a'", nil, false, "", ""},
+	{"\"abc\"", "\"abd\"", nil, false, "", ""},
+	{"\"abd\"", "\"abc\"", []string{"\"x\""}, true, "", ""},
+	{"gs", "\"abc\"", nil, false, "", ""},
+	{"KS", "gs", nil, false, "", ""},
+	{"s", "s.a", []string{"s.a", "s.b"}, false, "", ""},
+	{"s.a", "s", nil, true, "", ""},
+	{"Big{}", "s", []string{"Big{}", "int64(1)"}, false, "", ""},
+	{"&s", "Big{}", nil, false, "", ""},
+	{"t", "u", []string{"t"}, false, "", ""},
+	{"u", "t", []string{"u", "1"}, true, "", ""},
+	{"u", "u", nil, false, "", ""},
+	{"arr", "len(arr)", []string{"arr[0]"}, false, "", ""},
+	{"arr[0]", "arr", nil, false, "", ""},
+	{"len(arr)", "cap(arr)", []string{"len(arr)", "3"}, false, "", ""},
+	{"2.5", "1", []string{"2.5"}, false, "", ""},
+	{"true", "2.0", nil, false, "", ""},
+	{"MyInt(8)", "8", []string{"MyInt(8)", "8"}, false, "", ""},
+	{"int8(1)", "int64(1)", []string{"int8(1)", "int16(1)"}, false, "", ""},
+	{"int64(1)", "int8(1)", []string{"int64(9)", "int64(10)", "int64(11)"}, true, "", ""},
+	{"K + 1", "K - 7", []string{"K", "K + 1"}, false, "", ""},
+	{"(gv)", "(7)", nil, false, "", ""},
+	{"f0()", "7", []string{"f0()"}, false, "", ""},
+	{"[2]int32{}", "[3]string{}", []string{"[2]int32{}"}, false, "", ""},
+	{"struct{}{}", "0", []string{"0", "0"}, false, "", ""},
+	{"x0", "x0", []string{"x0", "x0"}, false, "", ""},
+	{"97", "'a'", []string{"97"}, false, "", ""},
+	{"\"ab\" + \"c\"", "KS", nil, false, "", ""},
+	{"\"\"", "\"a\"", nil, false, "", ""},
+	{"uint64(1 << 63)", "int64(-1 << 63)", []string{"uint64(1 << 63)"}, false, "", ""},
+	{"200", "uint8(200)", []string{"199", "200", "201"}, true, "", ""},
+	{"[2]T{}", "struct{ v U }{}", []string{"[1]int{}", "[1][1]T{}"}, false, "", ""},
+	{"struct{ a [2]U }{}", "[2]T{}", nil, false, "", ""},
+	{"[2]string{\n\t\t\"q\",\n\t}", "gv", nil, false, "", ""},
+	{"gv", "func() int {\n\t\treturn 1\n\t}()", []string{"1"}, false, "", ""},
+	// distinct types that PRINT alike (types.Type.String()) and differ in size: equally named types declared in different
+	// blocks, a local type that shadows a package-level one, arrays and structs of them -- in both source orders (the smaller
+	// one first, the larger one first) and both in one call
+	{"l", "[2]L{}", []string{"l", "&l"}, false, "{\n\ttype L struct{ a int64 }\n\tvar l L\n", "\t_ = l\n\t}\n"},
+	{"l", "[2]L{}", []string{"l", "L{}", "struct{ v L }{}"}, false, "{\n\ttype L struct{ a, b int64 }\n\tvar l L\n", "\t_ = l\n\t}\n"},
+	{"m1", "m2", []string{"m2", "m1", "[2]M{}"}, false, "{\n\ttype M [3]int64\n\tvar m1 M\n\t{\n\ttype M [1]int64\n\tvar m2 M\n", "\t_, _ = m1, m2\n\t}\n\t}\n"},
+	{"Hdr{}", "[3]Hdr{}", []string{"Hdr{}"}, true, "{\n\ttype Hdr [2]int64\n", "\t}\n"},
+	{"Hdr{}", "[3]Hdr{}", []string{"Hdr{}", "&Hdr{}"}, false, "", ""},
+	{"Big{}", "s", []string{"Big{}", "[2]Big{}"}, false, "{\n\ttype Big [4]int64\n", "\t}\n"},
 }
 
 // detachedSpecs: the probe sites of the targets whose bytes the engine cannot (fully) read back from the file system.
@@ -90,29 +101,29 @@ var siteSpecs = []siteSpec{
 // makes of the node, the same string the report message interpolates -- differs from the source extent of the node in
 // length and in content; gofmt-shaped twins stand next to them.
 var detachedSpecs = []siteSpec{
-	{"g( 1,2 )", "g(1, 2)", nil, false},
-	{"a+b", "a  +  b", []string{"a+b", "a  +  b"}, false},
-	{"a + b", "a +b", nil, false},
-	{"gv", "( gv )", []string{"( 7 )", "gv"}, false},
-	{"[]int{1,2}", "[]int{ 1, 2 }", nil, false},
-	{"K+1", "8", []string{"K +1", "8"}, false},
-	{"- 3", "-3", nil, false},
-	{"a\t+ b", "a + b", nil, false},
-	{"struct{}{}", "[ 0 ]int{}", []string{"struct{ }{ }"}, false},
-	{"f0( )", "7", []string{"f0( )"}, false},
-	{"\"abc\"", "KS", nil, false},
-	{"s . a", "s.a", nil, true},
-	{"g(1,\n\t\t2)", "gv", nil, false},
-	{"'a'", "97", []string{"'a'", "0x61"}, false},
-	{"uint8( 200 )", "200", nil, false},
-	{"1<<40", "1 << 40", nil, false},
+	{"g( 1,2 )", "g(1, 2)", nil, false, "", ""},
+	{"a+b", "a  +  b", []string{"a+b", "a  +  b"}, false, "", ""},
+	{"a + b", "a +b", nil, false, "", ""},
+	{"gv", "( gv )", []string{"( 7 )", "gv"}, false, "", ""},
+	{"[]int{1,2}", "[]int{ 1, 2 }", nil, false, "", ""},
+	{"K+1", "8", []string{"K +1", "8"}, false, "", ""},
+	{"- 3", "-3", nil, false, "", ""},
+	{"a\t+ b", "a + b", nil, false, "", ""},
+	{"struct{}{}", "[ 0 ]int{}", []string{"struct{ }{ }"}, false, "", ""},
+	{"f0( )", "7", []string{"f0( )"}, false, "", ""},
+	{"\"abc\"", "KS", nil, false, "", ""},
+	{"s . a", "s.a", nil, true, "", ""},
+	{"g(1,\n\t\t2)", "gv", nil, false, "", ""},
+	{"'a'", "97", []string{"'a'", "0x61"}, false, "", ""},
+	{"uint8( 200 )", "200", nil, false, "", ""},
+	{"1<<40", "1 << 40", nil, false, "", ""},
 }
 
 // targetSource renders a target file: one row of W probe calls per site spec. rowStart[i] is the byte offset at which
 // the rows of site i begin. A detached target also spells the probe calls themselves in two non-gofmt ways.
 func targetSource(specs []siteSpec, detached bool) (string, []int) {
 	var sb strings.Builder
-	sb.WriteString("package target\n\ntype S struct {\n\ta int\n\tb string\n}\ntype Big [40]int64\ntype MyInt int\n\nvar gv = 3\nvar gs = \"abc\"\n\nconst K = 7\nconst KS = \"abc\"\n\nfunc f0() int { return gv }\n\nfunc g(a, b int) int { return a + b }\n\n")
+	sb.WriteString("package target\n\ntype S struct {\n\ta int\n\tb string\n}\ntype Big [40]int64\ntype Hdr [4]int64\ntype MyInt int\n\nvar gv = 3\nvar gs = \"abc\"\n\nconst K = 7\nconst KS = \"abc\"\n\nfunc f0() int { return gv }\n\nfunc g(a, b int) int { return a + b }\n\n")
 	for j := 0; j < W; j++ {
 		fmt.Fprintf(&sb, "func p%d(a, b interface{}, rest ...interface{}) {}\n", j)
 	}
@@ -124,6 +135,7 @@ func targetSource(specs []siteSpec, detached bool) (string, []int) {
 			// the rest of the file says it comes from elsewhere: Line is the line a position is REPORTED at
 			sb.WriteString("//line relocated.go:5000\n")
 		}
+		sb.WriteString(sp.pre)
 		open, sep, close := "(", ", ", ")"
 		if detached {
 			if i%2 == 0 {
@@ -149,6 +161,7 @@ func targetSource(specs []siteSpec, detached bool) (string, []int) {
 			fmt.Fprintf(&sb, "p%d%s%s%s", j, open, args, close)
 		}
 		sb.WriteString("\n")
+		sb.WriteString(sp.post)
 	}
 	rowStart = append(rowStart, sb.Len())
 	sb.WriteString("}\n")
